@@ -20,13 +20,20 @@
        critical section                   LCs ...      (the API handler's accesses to the store)
        m.m.Unlock(ctx)                    LEtcdUnlock  (delete own key)
        m.lock.Unlock()                    LLocalUnlock
+    plus a fault step of the member (not of the request):
+       keepAliveLease -> grantNewLease    LRegrant     (the member lease is granted again; any later
+                                                        cluster.Mutex() call still uses the session of
+                                                        the FIRST lease, so the lock key stays)
     The transition system interleaves these atomic steps of any number of
     threads on any number of members (a schedule is a list of (thread, label)).
 
     Quirk flag [q_local_per_handle] (defect of the pinned code): cluster.Mutex(name)
     builds a NEW process-local sync.Mutex for every call, so two handles obtained
     on one member for the same name share the etcd key (same session) but not the
-    local lock.  [ideal]: one local lock per member and name. *)
+    local lock.  [ideal]: one local lock per member and name.
+    Flag [q_regrant_revokes] (not a defect of the pinned code; the shape of a plausible wrong
+    "repair"): after a lease re-grant the session is replaced and the old one closed, which
+    revokes the old lease and with it the member's lock key. *)
 From EG.lib Require Import Base.
 Open Scope Z_scope.
 
@@ -112,8 +119,8 @@ Record thr := { t_mem : mid;     (* member (process) the thread runs on *)
                 t_req : req;
                 t_to : bool }.   (* the request timeout may fire while it waits for the lock *)
 
-Record quirks := { q_local_per_handle : bool }.
-Definition ideal : quirks := {| q_local_per_handle := false |}.
+Record quirks := { q_local_per_handle : bool; q_regrant_revokes : bool }.
+Definition ideal : quirks := {| q_local_per_handle := false; q_regrant_revokes := false |}.
 
 Definition lslot (q : quirks) (th : thr) : nat := if q_local_per_handle q then t_hnd th else O.
 
@@ -127,7 +134,7 @@ Inductive pc :=
 | PDone (r : result)
 | PFail.                 (* Lock returned an error *)
 
-Inductive label := LLocalLock | LPut | LAcquire | LTimeout | LExpired | LCs | LEtcdUnlock | LLocalUnlock | LGet.
+Inductive label := LLocalLock | LPut | LAcquire | LTimeout | LExpired | LCs | LEtcdUnlock | LLocalUnlock | LGet | LRegrant.
 
 Record state := {
   queue : list mid;                    (* lock keys of the members, in create-revision order *)
@@ -199,6 +206,11 @@ Definition step (q : quirks) (cfg : tid -> thr) (s : state) (t : tid) (l : label
   let m := t_mem th in
   let h := lslot q th in
   match l, pcs s t with
+  | LRegrant, _ =>           (* lease of member [m] granted again (+ a later cluster.Mutex() call) *)
+      Some (if q_regrant_revokes q then
+              {| queue := remove_m m (queue s); local := local s; pcs := pcs s;
+                 reg := reg s; objs := objs s; ver := ver s; log := log s |}
+            else s)
   | LLocalLock, PIdle =>
       if is_get (t_req th) then None else
       match local s m h with
